@@ -115,6 +115,10 @@ Definition spec_dir (recursive : bool) (rel : list string) (t : tree) (S : tsour
 
 Definition spec_files (S : tsources) (ps : list (list string)) : list (list string) := filter (spec_ok S) ps.
 
+(* several targets in one run: the named files and everything beneath the named directories *)
+Definition spec_paths (recursive : bool) (S : tsources) (files : list (list string)) (dirs : list (list string * tree)) : list (list string) :=
+  spec_files S files ++ flat_map (fun d => spec_dir recursive (fst d) (snd d) S) dirs.
+
 (* "p is a regular file of t, reached through the directories named on the way" *)
 Inductive file_at : tree -> list string -> Prop :=
 | FA_here : forall d cs n, In (File n) cs -> file_at (Dir d cs) [n]
